@@ -91,9 +91,14 @@ def main(argv):
                          if l.startswith("> FAILED ")]
                 gone = [l for l in ps.stdout.splitlines() if l.startswith("< FAILED ")]
                 if extra and not gone:
-                    pr = sh([PY, "-m", "pytest", "-q", "-p", "no:cacheprovider",
-                             "--timeout=900"] + extra, cwd=wt,
-                            env={**os.environ, "PYTHONPATH": wt}, timeout=3600)
+                    for attempt in range(3):      # flaky under load: up to three tries
+                        pr = sh([PY, "-m", "pytest", "-q", "-p", "no:cacheprovider",
+                                 "--timeout=900"] + extra, cwd=wt,
+                                env={**os.environ, "PYTHONPATH": wt,
+                                     "OPENBLAS_NUM_THREADS": "1", "OMP_NUM_THREADS": "1"},
+                                timeout=3600)
+                        if pr.returncode == 0:
+                            break
                     log["suite_rerun_of_extra_failures"] = {
                         "tests": extra, "rc": pr.returncode,
                         "tail": pr.stdout.strip().splitlines()[-1][:200] if pr.stdout else ""}
